@@ -1869,3 +1869,29 @@ Proof.
         (destruct (find_conn id (m_conns s)) as [c0|]; [|reflexivity]); cbn [option_map]; destruct (c_mapped c0); reflexivity. }
   destruct (lenN rest =? 0); apply H.
 Qed.
+
+(* ---------- a failing trunk read ends the reader ---------- *)
+(* whatever the error (a time-out included) and wherever in the stream: the reader latches an error, closes the Mux
+   and is done; it does not read again *)
+Lemma reader_fail_eq s : m_reader_done s = false ->
+  reader_fail_step s = if m_closed s then set_reader_done true (latch EEOF s) else fail_reader EErr s.
+Proof. intros H. unfold reader_fail_step. now rewrite H. Qed.
+
+Theorem read_failure_ends_reader s :
+  m_reader_done s = false ->
+  let s' := reader_fail_step s in
+  m_closed s' = true /\ m_reader_done s' = true /\ m_err s' <> None /\
+  reader_step s' = s' /\ reader_fail_step s' = s'.
+Proof.
+  intros Hd. cbn zeta.
+  assert (H : forall t, m_reader_done t = true -> reader_step t = t /\ reader_fail_step t = t).
+  { intros t Ht. unfold reader_step, reader_fail_step. rewrite Ht. destruct (m_blocked t); split; reflexivity. }
+  rewrite (reader_fail_eq s Hd). destruct (m_closed s) eqn:Ec.
+  - split; [cbn [m_closed set_reader_done]; unfold latch; destruct (m_err s); exact Ec|].
+    split; [reflexivity|]. split; [cbn [m_err set_reader_done]; apply latch_err|]. apply H. reflexivity.
+  - unfold fail_reader. split; [cbn [m_closed set_reader_done]; apply do_close_closed|]. split; [reflexivity|].
+    split; [cbn [m_err set_reader_done]; rewrite do_close_err; apply latch_err|]. apply H. reflexivity.
+Qed.
+
+Lemma read_error_final_ok : read_error_is_final = true.
+Proof. reflexivity. Qed.
